@@ -37,3 +37,70 @@ claim("C20", "proof", T1 + " (token-stream ghost state; lenient abstraction of n
       "tokenizer primitives (next_token*, require_next_token*, is_eof) are ASSUMED contracts validated at run time; non-token code is abstracted "
       "(assumed to terminate and to raise only parse errors); Newick recursive descent, PHYLIP/FASTA readers and recursion depth are bounded only",
       "DESIGN.md section 5 C20")
+
+claim("C03", "proof", T1 + " (theory B: exact reference lists + ghost position/owner maps); " + T2,
+      "Proved (T1, all heaps satisfying the stated list invariants): exact state-transformer contracts of Node.add_child, insert_child, "
+      "remove_child (plain removal), _set_parent_node, Edge._set_tail_node/_get_tail_node, clear_child_nodes; Edge.invert (tail a parentless node, as "
+      "Tree.reseed_at calls it) and Edge.collapse (loop invariant: children spliced in place, siblings shifted), each with frames and native "
+      "run-time validation on every forest with <= 4 leaves. Bounded (T2): every history of <= 3 operations from every small tree, acyclicity, "
+      "reachability, leaf-taxon multisets, bipartition freshness.",
+      "acyclicity/reachability are not modelled at T1; composite operations (reseed_at, prune, suppress_unifurcations, encode) are bounded only",
+      "DESIGN.md section 5 C03")
+claim("C04", "exploration", T2,
+      "Bounded: all pairs/triples over small shapes x length patterns against the split-set definitions (RF, fp/fn, wRF, Euclidean), metric axioms, "
+      "definedness symmetry, namespace refusal, edit-then-distance histories.",
+      "bounded stand-in only for this property in this build (the Lean metric lemmas of the design are not built yet)", "DESIGN.md section 5 C04")
+claim("C05", "exploration", T2,
+      "Bounded: every multiset of <= 3 (thorough 4) labelled 4-leaf topologies x weights x thresholds: exact frequencies, consensus all-and-only / maximal-greedy, "
+      "support/length/age summaries, collapse, maximum-credibility argmax.",
+      "bounded stand-in only for this property in this build", "DESIGN.md section 5 C05")
+claim("C06", "proof", T1 + " (lists modelled by their length); " + T2,
+      "Proved (T1): TreeArray.update/extend/__iadd__/add_tree/append/insert/validate_rooting keep the four per-tree lists equally long, grow them by the stated "
+      "amount, and never refuse arrays compatible in the property's sense (equal settings; equal rooting or one side empty with undefined rooting). "
+      "Bounded (T2): every partition/arrival order/interleaving, content alignment, SumTrees collation loop with fake queues, CLI smoke.",
+      "list CONTENTS are abstracted at T1 (content alignment is bounded); SplitDistribution arithmetic is abstracted; OS scheduling and Queue delivery are out of reach",
+      "DESIGN.md section 5 C06")
+claim("C07", "exploration", T2 + "; Edge.invert contract (lengths swapped, adjacency kept) is proved under C03",
+      "Bounded: all shapes <= 5 leaves x length patterns (equal, integral, zero, missing) x every target: leaf set, unrooted splits, total length, all path sums, "
+      "rooting flag, midpoint equidistance incl. midpoint-on-node, edge-root distances, outgroup first.",
+      "bounded stand-in; floating-point rounding is tolerated as the statement says", "DESIGN.md section 5 C07")
+claim("C08", "exploration", T2 + "; wrapper contracts (argument forwarding, filter predicates, complement) by AST effect analysis + z3",
+      "Bounded (deciding): every tree <= 5 leaves x every non-empty taxon subset x both flags: induced-subtree clades, merged lengths, path sums, six API variants agree, "
+      "source unchanged, extraction_source, removed-node reports. T1: each extract/prune/retain wrapper forwards every shared parameter and builds the stated filter.",
+      "the induced-subtree clause itself is bounded only", "DESIGN.md section 5 C08")
+claim("C09", "exploration", T2,
+      "Bounded: 8 data types x construction routes x dimensions x 11-15 target variants, special labels, multi-namespace data sets, random matrices.",
+      "writers/readers and xml.etree are outside contract reach (DESIGN.md section 6); two recorded known findings", "DESIGN.md section 5 C09")
+claim("C10", "proof", T1 + " (dictionaries as maps; quantified representation invariant); " + T2,
+      "Proved (T1): add_taxon, remove_taxon, clear, sort, reverse, taxon_bitmask, accession_index, all_taxa_bitmask preserve the namespace invariant NS, never change the "
+      "index/bit of a remaining member, and give a new member a fresh index >= the old counter (no reuse, no sharing). Bounded (T2): every history of <= 2 (thorough 3) "
+      "operations over duplicate/case-variant labels, bitmask<->taxa round trips, renderings, lookups, copies.",
+      "the member list is modelled by its length at T1; label lookups, textual renderings and copies are bounded only", "DESIGN.md section 5 C10")
+claim("C11", "exploration", T2,
+      "Bounded: every history of <= 2 (thorough 3) container operations on TreeList / CharacterMatrix / DataSet / TreeArray over foreign namespaces with overlapping, disjoint "
+      "and case-variant labels: closure by object identity, label<->taxon functional and injective, nothing dropped.",
+      "bounded stand-in only for this property in this build", "DESIGN.md section 5 C11")
+claim("C12", "exploration", T2,
+      "Bounded: every copy route x shapes <= 4 (thorough 5) x decorations: canonical-dump equality, heap separation by walking __dict__/containers, mutation battery both ways, "
+      "bound annotations follow the copy.",
+      "copy.deepcopy internals are stdlib/C (DESIGN.md section 6)", "DESIGN.md section 5 C12")
+claim("C13", "exploration", T2,
+      "Bounded: generated corpus (<= 2 TREES blocks x <= 3 statements x TRANSLATE/comments/weights/rooting tokens) in Newick/NEXUS/NeXML: every reading route against TreeList.get.",
+      "relates whole parsers (DESIGN.md section 6); two recorded known findings", "DESIGN.md section 5 C13")
+claim("C14", "exploration", T2,
+      "Bounded: all shapes <= 5 (thorough 6) x 7 length patterns: path sums, edge counts, turning nodes for every pair; mrca for every subset; MPD/MNTD; NJ on additive and UPGMA on "
+      "ultrametric matrices recover the tree; CSV round trip.",
+      "bounded stand-in only for this property in this build", "DESIGN.md section 5 C14")
+claim("C15", "exploration", T2 + " (exhaustive small scope); filter-composition lambdas proved equivalent to their definition by z3 over atoms read off the AST",
+      "Bounded, exhaustive (deciding): every ordered tree with <= 9 (thorough 11) nodes x every start node x 7 filters x every iterator of Tree and Node against recursive "
+      "reference definitions; apply() bracket words. T1: internal-node / internal-edge / leaf filter lambdas == (non-leaf and (seed allowed or has parent) and user filter).",
+      "visit ORDER of the stack generators needs induction over recursive sequence functions (DESIGN.md section 6): bounded only", "DESIGN.md section 5 C15")
+claim("C17", "exploration", T2,
+      "Bounded: ultrametric and perturbed trees (exact boundary of the precision), every forcing option and route, lineages at every level, all statistics x normalisations against "
+      "independent definitions, child-order invariance, recompute-after-edit.",
+      "bounded stand-in only for this property in this build; floating point tolerated as stated", "DESIGN.md section 5 C17")
+claim("C19", "proof", T1 + " (loop measures over length-modelled lists, guard-progress effect scan, Lean 4 + Mathlib lemma); " + T2,
+      "Proved (T1): termination and exact growth of CharacterDataSequence.set_at; every while loop of charmatrixmodel.py can change its guard or leave; the concatenate "
+      "label loop terminates (step + frame obligations on the AST, Lean lemma injective_escapes_finite). Bounded (T2): row-set algebra, padding, column selection, "
+      "concatenation, argument immutability, namespace refusal, wall-clock guards.",
+      "guard-progress is a necessary condition only; injectivity of the '%s_%03d' label format in the counter is an arithmetic assumption", "DESIGN.md section 5 C19")
